@@ -195,7 +195,22 @@ func ruleValidate(rulePrefix string) func(p *Prog, r *Result) {
 		})
 		// strings
 		str := selectPaths(pr.paths, func(pa *Path) bool { return guardPol(pa, "kind", objP, "string") == 1 })
-		pr.all(`string "$required" is a required-field error`, selectPaths(str, func(pa *Path) bool { return guardPol(pa, "streq", objP, q("$required")) == 1 }),
+		// obj == "$required", spelled directly or as "$" + "required"
+		isRequired := func(pa *Path) int {
+			if v := guardPol(pa, "streq", objP, q("$required")); v != 0 {
+				return v
+			}
+			pre := guardPol(pa, "prefix", objP, q("$"))
+			if pre == -1 {
+				return -1
+			}
+			rest := guardPol(pa, "streq", mCall("strings.TrimPrefix", objP, mStr("$")), q("required"))
+			if pre == 1 && rest != 0 {
+				return rest
+			}
+			return 0
+		}
+		pr.all(`string "$required" is a required-field error`, selectPaths(str, func(pa *Path) bool { return isRequired(pa) == 1 }),
 			"returns ErrRequiredField", func(pa *Path) (bool, string) {
 				if pa.End == "return" && wraps(lastResult(pa), "ErrRequiredField") {
 					return true, ""
@@ -213,7 +228,36 @@ func ruleValidate(rulePrefix string) func(p *Prog, r *Result) {
 			}
 			return 0
 		}
-		isLower := func(pa *Path) int { return guardPol(pa, "truth", mCall("unicode.IsLower"), nil) }
+		// the other spelling: strings.HasPrefix/CutPrefix(obj, "$") and the first rune of the rest
+		restOf := func(t *T) bool {
+			if t == nil {
+				return false
+			}
+			if t.Op == "call" && t.Name == "strings.TrimPrefix" && len(t.Args) == 2 && objP(t.Args[0]) && mStr("$")(t.Args[1]) {
+				return true
+			}
+			return t.Op == "slice" && len(t.Args) >= 2 && objP(t.Args[0]) && t.Args[1].IsConst("1")
+		}
+		decode := mCall("unicode/utf8.DecodeRuneInString", restOf)
+		isDollar0 := isDollar
+		isDollar = func(pa *Path) int {
+			if v := isDollar0(pa); v != 0 {
+				return v
+			}
+			return guardPol(pa, "prefix", objP, q("$"))
+		}
+		secondRune := func(t *T) bool {
+			if t == nil {
+				return false
+			}
+			if strings.Contains(t.String(), "At>") && strings.HasSuffix(t.String(), ", 1)") {
+				return true // utf8string.At(1)
+			}
+			return mResOf(0, decode)(t)
+		}
+		isLower := func(pa *Path) int {
+			return guardPol(pa, "truth", mCall("unicode.IsLower", secondRune), nil)
+		}
 		longEnough := func(pa *Path) int {
 			for _, g := range pa.Guards {
 				if g.Kind == "cmp" && g.B != nil && strings.Contains(g.A.String(), "RuneCount") {
@@ -221,10 +265,22 @@ func ruleValidate(rulePrefix string) func(p *Prog, r *Result) {
 						return v
 					}
 				}
+				// size > 0 of the decoded rune
+				if g.Kind == "cmp" && g.A != nil && mResOf(1, decode)(g.A) && g.B != nil {
+					if v, ok := cmpImpliesAtLeast(g, 1); ok {
+						return v
+					}
+				}
+				if g.Kind == "streq" && g.A != nil && restOf(g.A) && g.Const == q("") {
+					if g.Neg {
+						return 1
+					}
+					return -1
+				}
 			}
 			return 0
 		}
-		other := selectPaths(str, func(pa *Path) bool { return guardPol(pa, "streq", objP, q("$required")) != 1 })
+		other := selectPaths(str, func(pa *Path) bool { return isRequired(pa) != 1 })
 		pr.all("string beginning with $ and a lower-case letter is an invalid directive; nothing else is rejected (in particular not $$...)", other,
 			"fails iff rune 0 is '$' and rune 1 is lower case, with ErrInvalidDirective", func(pa *Path) (bool, string) {
 				if pa.End != "return" {
